@@ -42,6 +42,12 @@ FormulaFails(v, to, r) ==
   THEN F(r.k = "bool" /\ (r.n = 1) = (v.c = <<116, 114, 117, 101>>), "'true'/'false' converted to Boolean has the wrong value")
   ELSE ""
 
+\* unit clauses on the decimal texts (any magnitude): DateTime <-> integer = Unix seconds, TimeSpan <-> integer = milliseconds
+UnitFails(v, to, r) ==
+  IF v.t = "DateTime" /\ to \in Integral THEN F(r.s = v.u, "a date-time converted to an integer type is not its Unix time in seconds")
+  ELSE IF v.t = "TimeSpan" /\ to \in Integral /\ v.u # "" THEN F(r.s = v.u, "a time span converted to an integer type is not its length in milliseconds")
+  ELSE IF v.t \in Integral /\ to = "DateTime" THEN F(r.u = v.s, "an integer converted to a date-time is not that many Unix seconds")
+  ELSE ""
 ConvFails(e) ==
   IF e.outcome = "panic" THEN "the conversion crashed; "
   ELSE IF e.outcome \in {"nil", "both"} THEN "the conversion returned neither exactly a value nor exactly an error; "
@@ -51,7 +57,7 @@ ConvFails(e) ==
   ELSE F(e.outcome = "value", "a supported conversion yielded an error")
     \o (IF e.outcome # "value" THEN ""
         ELSE IF ConvIdentity(e.v.t, e.to) THEN F(e.r.t = e.v.t /\ e.r.s = e.v.s, "requesting Object or the value's own type did not return the unchanged value")
-        ELSE F(e.r.t = e.to, "the result does not have the requested type") \o (IF e.r.t = e.to /\ e.to # "Null" THEN FormulaFails(e.v, e.to, e.r) ELSE ""))
+        ELSE F(e.r.t = e.to, "the result does not have the requested type") \o (IF e.r.t = e.to /\ e.to # "Null" THEN FormulaFails(e.v, e.to, e.r) \o UnitFails(e.v, e.to, e.r) ELSE ""))
 
 BothFails(e) ==
   IF e.so = "panic" \/ e.uo = "panic" THEN "a conversion crashed; "
@@ -68,9 +74,9 @@ RoundTrips(e) ==
   \/ f = "Boolean" /\ via \in Numeric
   \/ f \in Numeric /\ via = "Boolean" /\ Exact(v) /\ Num8(v) \in {0, 8}
   \/ f \in Integral /\ via = "TimeSpan" /\ v.k = "int"
-  \/ f = "TimeSpan" /\ via \in Integral /\ v.k = "int"
+  \/ f = "TimeSpan" /\ via \in Integral /\ (v.k = "int" \/ v.w)        \* whole milliseconds, any magnitude
   \/ f \in Integral /\ via = "DateTime" /\ e.le53
-  \/ f = "DateTime" /\ via \in Integral /\ v.k = "int"
+  \/ f = "DateTime" /\ via \in Integral /\ (v.k = "int" \/ v.w)        \* whole seconds, any magnitude
   \/ f \in Integral \cup {"Boolean"} /\ via = "String"
 ChainFails(e) ==
   IF e.o1 = "panic" \/ e.o2 = "panic" THEN "a conversion crashed; "
